@@ -96,6 +96,66 @@ theorem not_imported_of_not_required (g : PGraph) (d : String)
   | none => rfl
   | some v => exact absurd ((import_is_max g d v).mp hl).1 (h v)
 
+/-! ## the imports as a function of the set of requirements: monotone, order-free (round 10) -/
+
+/-- A program whose nodes (at any depth) all occur in another program requires nothing the other does not. -/
+theorem required_of_nodes_subset (F : Facts) (g g' : PGraph)
+    (h : ∀ n ∈ allNodesG g, n ∈ allNodesG g') (d : String) (v : Nat) :
+    Required F g d v → Required F g' d v := by
+  rintro (h0 | ⟨n, hn, r, hr, h1, h2⟩)
+  · exact Or.inl h0
+  · exact Or.inr ⟨n, h n hn, r, hr, h1, h2⟩
+
+/-- Imports are monotone in what is required: a model that requires everything another one requires imports
+    every domain the other imports, at that version or above. -/
+theorem imports_monotone (g g' : PGraph)
+    (h : ∀ d v, Required genFacts g d v → Required genFacts g' d v) (d : String) (v : Nat)
+    (hl : lookup d (buildModel genFacts g).imports = some v) :
+    ∃ v', lookup d (buildModel genFacts g').imports = some v' ∧ v ≤ v' := by
+  have hr := h d v ((import_is_max g d v).mp hl).1
+  obtain ⟨r, hr', h1, h2⟩ := (required_iff genFacts g' d v).mpr hr
+  have hd : Dominates (buildModel genFacts g').imports (reqGraph genFacts g' ++ []) := policy_dominates _
+  obtain ⟨t, ht, hle⟩ := hd r hr'
+  exact ⟨t, by rw [← h1]; exact ht, by rw [← h2]; exact hle⟩
+
+/-- The imports depend on the SET of (domain, version) requirements only — not on where a node sits (main graph,
+    body, function), not on how often or in which order requirements occur. -/
+theorem imports_depend_on_requirements_only (g g' : PGraph)
+    (h : ∀ d v, Required genFacts g d v ↔ Required genFacts g' d v) (d : String) :
+    lookup d (buildModel genFacts g).imports = lookup d (buildModel genFacts g').imports := by
+  apply Option.ext
+  intro v
+  rw [import_is_max, import_is_max]
+  constructor
+  · rintro ⟨h1, h2⟩
+    exact ⟨(h d v).mp h1, fun v' hv' => h2 v' ((h d v').mpr hv')⟩
+  · rintro ⟨h1, h2⟩
+    exact ⟨(h d v).mpr h1, fun v' hv' => h2 v' ((h d v').mp hv')⟩
+
+/-- Adding statements — before, after — never lowers an import (the same operators built again next to more
+    operators: the histories "same objects under a higher maximum"). -/
+theorem imports_grow_with_program (before ns after : List PNode) (d : String) (v : Nat)
+    (hl : lookup d (buildModel genFacts (.mk ns)).imports = some v) :
+    ∃ v', lookup d (buildModel genFacts (.mk (before ++ ns ++ after))).imports = some v' ∧ v ≤ v' := by
+  apply imports_monotone (.mk ns) _ _ d v hl
+  intro d v
+  apply required_of_nodes_subset
+  intro n hn
+  simp only [allNodesG, allNodesNs_append, List.mem_append] at hn ⊢
+  exact Or.inl (Or.inr hn)
+
+/-- The order of the statements does not enter the imports. -/
+theorem imports_ignore_statement_order (ns ms : List PNode) (d : String) :
+    lookup d (buildModel genFacts (.mk (ns ++ ms))).imports =
+      lookup d (buildModel genFacts (.mk (ms ++ ns))).imports := by
+  apply imports_depend_on_requirements_only
+  intro d v
+  constructor <;>
+  · apply required_of_nodes_subset
+    intro n hn
+    simp only [allNodesG, allNodesNs_append, List.mem_append] at hn ⊢
+    exact hn.symm
+
 /-! ## the floor -/
 
 /-- `INTERNAL_MIN_OPSET` as found in the source on this run is at least 14. -/
@@ -783,5 +843,10 @@ example : NoClash "N".toList ["x".toList] ["y".toList] [⟨["x".toList], ["t".to
     rw [e] at ha; exact ha
   simp only [List.mem_cons, List.mem_nil_iff, or_false] at this
   rcases this with rfl | rfl | rfl | rfl <;> decide
+
+/-- a v18 reduction alone imports 18; next to a v21 Identity (before or after) the import is 21 -/
+example : lookup "" (buildModel genFacts (.mk [.mk (.op "" (opNo "ReduceMax") 18) 1 true [] 3])).imports = some 18 ∧
+    lookup "" (buildModel genFacts (.mk ([.mk (.op "" (opNo "Identity") 21) 1 true [] 5] ++
+      [.mk (.op "" (opNo "ReduceMax") 18) 1 true [] 3] ++ []))).imports = some 21 := by decide +kernel
 
 end C09
